@@ -82,6 +82,7 @@ def read_cool(uri, cols=("count",)):
         arr = {c: g["pixels/" + c][:] for c in ["bin1_id", "bin2_id"] + have}
         out["pixels"] = [[_py(arr[c][i]) if i < len(arr[c]) else None for c in ["bin1_id", "bin2_id"] + have] for i in range(n)]
         out["value_columns"] = have
+        out["value_dtypes"] = {c: g["pixels/" + c].dtype for c in have}
     return out
 
 
@@ -94,7 +95,10 @@ def rows_close(a, b):
         for x, y in zip(ra, rb):
             if x is None or y is None:
                 return False
-            if abs(x - y) > 1e-9 * max(1.0, abs(y)):
+            if isinstance(y, int):  # integer expectations are exact, whatever type the stored value has
+                if x != y:
+                    return False
+            elif abs(x - y) > 1e-9 * max(1.0, abs(y)):
                 return False
     return True
 
@@ -177,6 +181,8 @@ class Base:
             self.bins["weight"] = [0.5 + 0.25 * i for i in range(len(self.bins))]
         self.res = true_resolution(spec)
         self.nnz = len(self.pix)
+        self.total = sum(_py(v) for v in self.pix["count"])
+        self.count_dtype = self.pix["count"].dtype
         path = B.path(f"base{Base._n}-{name}-{mname}.cool")
         self.uri = path if group == "/" else path + "::" + group
         cols = [c for c in self.pix.columns if c not in ("bin1_id", "bin2_id")]
@@ -286,6 +292,16 @@ def check_zoom(B, bases, targets, out, case, kind, cols=("count",), nontrivial=T
             B.check("derived-level==block-aggregate-of-base", good, lcase, dict(bins=got["bins"], pixels=got["pixels"]),
                     dict(bins=cb, pixels=rows), nontrivial and cands[0].nnz > 0,
                     signature=f"derived-level==block-aggregate-of-base:{kind}")
+            if "count" in got["value_columns"]:
+                # totals are preserved by exact block sums: the level's `sum` is the base's total
+                sa = got["attrs"].get("sum")
+                B.check("derived-level-sum-preserved", sa is not None and any(rows_close([[sa]], [[b.total]]) for b in cands), lcase,
+                        sa, cands[0].total, nontrivial and cands[0].nnz > 0, signature=f"derived-level-sum-preserved:{kind}")
+                # ... and they need a value type that can hold them: the base's kind of number, at least as wide
+                dt = got["value_dtypes"]["count"]
+                B.check("derived-level-value-type-holds-sums",
+                        any(dt.kind == b.count_dtype.kind and dt.itemsize >= b.count_dtype.itemsize for b in cands), lcase, str(dt),
+                        f"{cands[0].count_dtype} or wider", nontrivial, signature=f"derived-level-value-type-holds-sums:{kind}")
             if list(cols) != ["count"]:
                 B.check("derived-level-has-requested-columns", got["value_columns"] == list(cols), lcase, got["pixel_columns"],
                         ["bin1_id", "bin2_id"] + list(cols), signature=f"derived-level-has-requested-columns:{kind}")
@@ -301,7 +317,7 @@ def check_zoom(B, bases, targets, out, case, kind, cols=("count",), nontrivial=T
                             signature=f"derived-level==coarsen_cooler-of-base:{kind}")
 
 
-def run_zoom(B, bases, targets, cs, nproc, tag, kind=None, cols=None, uris=None, nontrivial=True, extra_case=None):
+def run_zoom(B, bases, targets, cs, nproc, tag, kind=None, cols=None, uris=None, nontrivial=True, extra_case=None, zkw=None):
     kind = kind or ("single-base" if len(bases) == 1 else "multi-base")
     if len(bases) == 1 and bases[0].nnz == 0:
         kind = "empty-cooler"
@@ -313,6 +329,8 @@ def run_zoom(B, bases, targets, cs, nproc, tag, kind=None, cols=None, uris=None,
         case.update(extra_case)
     uris = uris if uris is not None else [b.uri for b in bases]
     kw = dict(columns=list(cols)) if cols else {}
+    for k, v in (zkw or {}).items():
+        kw[k] = dict(v) if isinstance(v, dict) else v  # a fresh dict per call: the library fills it in
     r = B.guarded("zoomify_cooler-runs", case,
                   lambda: with_timeout(lambda: (cooler.zoomify_cooler(uris, out, list(targets), cs, nproc=nproc, **kw), True)[1]),
                   signature=f"zoomify_cooler-runs:{kind}")
@@ -386,9 +404,9 @@ def main():
                "nested group, empty, square} x target sets = "
                + ("ALL subsets of {1,2,3,4,6,8,12}*base in sorted/reversed/shuffled order on 2 fixed bases and (2 orders) a variable base, all orders of all subsets of size<=3 of {1,2,3,4,6,12}*base, "
                   if T else
-                  "all subsets of size<=3 of {1,2,3,4,6,8,12}*base + the full set + 12 seeded larger subsets on a fixed base (orders rotate sorted/reversed/shuffled), all subsets of size<=2 on a variable base, all orders of {2,3,6} and {1,2,4}, ")
+                  "all subsets of size<=2 of {1,2,3,4,6,8,12}*base + 15 seeded subsets of size 3 + the full set + 6 seeded larger subsets on a fixed base (orders rotate sorted/reversed/shuffled), all subsets of size<=2 on a variable base, all orders of {2,3,6} and {1,2,4}, ")
                + "chunksize in {2,7,10^6} rotating, nproc in {1,2}; 1-2 base URIs (consistent and inconsistent second base, either order); "
-               "non-multiples / below-base targets; extra value column; `cooler zoomify` CLI in-process"
+               "non-multiples / below-base targets; extra value column; float64-fractional and int64-beyond-2^31 counts x 8 ways of leaving the dtype unspecified (API: omitted/None/{}/other-column-only/agg-only; CLI: no --field/--field count/--field count:agg=sum) with levels derived from derived levels; `cooler zoomify` CLI in-process"
                + ("; plus seeded random bases/target sets/orders/chunksizes" if T else ""))
     B.rule = ("case = (base cooler(s) with pixel lists, target list in the given order, chunksize, nproc[, level]); non-trivial when the "
               "base has pixels and the level set has more than one member; distinct by case")
@@ -446,9 +464,10 @@ def main():
 
     allsub = [c for k in range(0, 8) for c in itertools.combinations(MULT, k)]
     if not T:
-        upto3 = [c for c in allsub if len(c) <= 3]
+        upto2 = [c for c in allsub if len(c) <= 2]
+        three = [c for c in allsub if len(c) == 3]
         larger = [c for c in allsub if 3 < len(c) < 7]
-        sweep(b_big, upto3 + [tuple(MULT)] + rng.sample(larger, 12), ["rotate"])
+        sweep(b_big, upto2 + rng.sample(three, 15) + [tuple(MULT)] + rng.sample(larger, 6), ["rotate"])
         sweep(b_var, [c for c in allsub if len(c) <= 2], ["rotate"])
     else:
         sweep(b_big, allsub, HOW)
@@ -535,6 +554,60 @@ def main():
     run_zoom(B, [b_w], [20, 40], 7, 1, "w1", kind="extra-value-column", cols=["count", "w"])   # 40 is derived from a derived level
     run_zoom(B, [b_w], [30], 7, 1, "w3", kind="extra-value-column", cols=["count", "w"])       # 30 is derived from the base itself
     run_zoom(B, [b_w], [30], 2, 1, "w2", kind="single-base", cols=["count"])
+
+    # ---------------------------------------------------------------- 6b. value type left unspecified by the caller
+    # block sums must be exact at EVERY derived level (also levels derived from derived levels) when the base's count column
+    # is not int32 and the caller names no dtype for it, in any of the ways the API and the CLI allow
+    from click.testing import CliRunner as _CliRunner
+    from cooler.cli import cli as _cli
+    _runner = _CliRunner()
+    vt_tabs = [("fixed10-3chrom", mid), ("variable-7+2bins", var)] + ([("fixed10-10+5bins", big), ("fixed7-exact-12+4bins", exact7)] if T else [])
+    vt_n = 0
+    for tname, spec in vt_tabs:
+        for symm in ((True, False) if T else (True,)):
+            basepix = mat(spec, "dense", symm)
+            n_ = len(basepix)
+            sources = {
+                "float64-fractional": np.array([0.5 + 1.25 * i + (5.75 if i % 3 == 0 else 0.0) for i in range(n_)], dtype=np.float64),
+                "int64-beyond-int32": np.array([1_200_000_000 + 700_000_001 * i for i in range(n_)], dtype=np.int64),
+            }
+            for sname, counts in sources.items():
+                px = basepix[["bin1_id", "bin2_id"]].copy()
+                px["count"] = counts
+                px["w"] = np.array([0.25 * (i % 5) for i in range(n_)], dtype=np.float64)
+                bv = Base(B, tname, spec, f"dense-{sname}+w", px, symm)
+                forms = {
+                    "dtypes-omitted": dict(api={}),
+                    "dtypes-None": dict(api=dict(dtypes=None)),
+                    "dtypes-empty-dict": dict(api=dict(dtypes={})),
+                    "dtypes-other-column-only": dict(api=dict(dtypes={"w": np.float64}), cols=["count", "w"]),
+                    "agg-sum-explicit": dict(api=dict(agg={"count": "sum"}, dtypes={})),
+                    "cli-no-field": dict(cli=[]),
+                    "cli-field-count": dict(cli=["--field", "count"]),
+                    "cli-field-count-agg-sum": dict(cli=["--field", "count:agg=sum"]),
+                }
+                tsets = [(2, 4), (3, 6), (4, 8)] if not T else [(2, 4), (3, 6, 2), (2, 4, 8), (12, 6, 3), (4, 2, 1, 8)]
+                for form, how in forms.items():
+                    for rep_ in range(2 if T else 1):
+                        vt_n += 1
+                        targets = [m * bv.res for m in tsets[vt_n % len(tsets)]]   # each has a level derived from a derived level
+                        cs = (2, 7, 10 ** 6)[vt_n % 3]
+                        npc = 2 if vt_n % 8 == 0 else 1
+                        kind = f"valuetype:{sname}:{form}"
+                        if "api" in how:
+                            run_zoom(B, [bv], targets, cs, npc, f"vt{vt_n}", kind=kind, cols=how.get("cols"), zkw=how["api"],
+                                     extra_case=dict(form=form, call={k: (str(v) if v else v) for k, v in how["api"].items()}))
+                        else:
+                            out = B.path(f"vt{vt_n}.mcool")
+                            args = ["zoomify", "-r", ",".join(str(t) for t in targets), "-c", str(cs), "-n", str(npc)] + how["cli"] + ["-o", out, bv.uri]
+                            case = dict(bases=[bv.describe()], form=form, argv=args[:-3] + ["-o", "OUT", "BASE"])
+                            res = invoke(_runner, _cli, args)
+                            if B.check("cli.zoomify-exit-0", res.exit_code == 0 and res.exception is None, case, repr(res.exception), "exit 0",
+                                       signature=f"cli.zoomify-exit-0:{kind}"):
+                                check_zoom(B, [bv], targets, out, case, kind)
+                            if os.path.exists(out):
+                                os.remove(out)
+                os.remove(parse_cooler_uri(bv.uri)[0])
 
     # ---------------------------------------------------------------- 7. CLI
     from click.testing import CliRunner
